@@ -281,9 +281,6 @@ def _work(ctx: Ctx, item):
 def run(ctx: Ctx):
     n = 100 if ctx.quick else 8000
     pmap(ctx, _work, [(k, n) for k in aio.CLIENT_KINDS for _ in range(4)])
-    # once more in an interpreter that does not execute assert statements (python -O)
-    from ..common import sub_pass
-    sub_pass(ctx, ["-O"], "python-O")
 
 
 def replay(ctx: Ctx, case):
